@@ -33,6 +33,7 @@ type zzSession struct {
 	failing bool
 	now     *int64
 	onWrite func(w *zzWritten)
+	yield   bool
 }
 
 func zzNewSession() *zzSession {
@@ -56,6 +57,9 @@ func (s *zzSession) WriteMulticastMessage(req *pool.Message, address *net.UDPAdd
 }
 
 func (s *zzSession) WriteMessage(req *pool.Message) error {
+	if s.yield {
+		symYield() // the real session marshals and does socket I/O here: other goroutines may run
+	}
 	w := zzWritten{typ: req.Type(), mid: req.MessageID(), code: req.Code(), token: append([]byte(nil), req.Token()...), nopts: len(req.Options()), cf: -1}
 	if cf, err := req.ContentFormat(); err == nil {
 		w.cf = int32(cf)
@@ -80,13 +84,14 @@ type zzConnCfg struct {
 	maxRetrans uint32
 	nstart     uint32
 	errs       *int
+	poolSize   uint32
 }
 
 func zzNewConn(s *zzSession, c zzConnCfg) *Conn {
 	cfg := Config{}
 	cfg.Ctx = context.Background()
 	cfg.MaxMessageSize = 1152
-	cfg.MessagePool = pool.New(0, 1024)
+	cfg.MessagePool = pool.New(c.poolSize, 1024)
 	cfg.Errors = func(error) {
 		if c.errs != nil {
 			*c.errs++
